@@ -161,7 +161,7 @@ fn run_case(input: &str, cuts: &[usize], opts: &HtmlOpts, st: &mut Stats) {
     }
 }
 
-const CONTENT_TOKENS: &[&str] = &["charset", "CHARSET", "chars", "Charset", " ", "\t", "\n", "\x0C", "\r", "=", "\"", "'", ";", "x", "utf-8", "é", "text/html", ",", "charset=", "\u{130}", "\u{212a}", "\u{212b}", "\u{1e9e}", "char\u{17f}et", "CHAR\u{17f}ET=", "\u{10ffff}", "日", "\u{130}\u{130}\u{130}\u{130}"];
+const CONTENT_TOKENS: &[&str] = &["charset", "CHARSET", "chars", "Charset", " ", "\t", "\n", "\x0C", "\r", "=", "\"", "'", ";", "x", "utf-8", "é", "text/html", ",", "charset=", "\u{130}", "\u{212a}", "\u{212b}", "\u{1e9e}", "char\u{17f}et", "CHAR\u{17f}ET=", "&#13;", "&#xD;", "&#12;", "&#9;", "&#10;", "&#32;", "&#xA0;", "&#x2028;", "\u{10ffff}", "日", "\u{130}\u{130}\u{130}\u{130}"];
 
 /// meta placed in every insertion mode
 const PLACEMENTS: &[&str] = &[
@@ -186,7 +186,7 @@ pub fn run(args: &Args) -> (Meta, Stats) {
     // enumerated content strings: all sequences of up to 4 tokens over a small alphabet (sharded), longer ones random
     // U+0130 and U+212A change their UTF-8 length under Unicode lower-casing (offsets computed on a
     // lower-cased copy would shift); U+212A lower-cases to the ASCII letter k
-    let alpha: Vec<&str> = vec!["charset", "CharSet", "chars", " ", "\t", "=", "\"", "'", ";", "x", "é", "\u{130}", "\u{212a}"];
+    let alpha: Vec<&str> = vec!["charset", "CharSet", "chars", " ", "\t", "=", "\"", "'", ";", "x", "é", "\u{130}", "\u{212a}", "&#13;"];
     let st = par_run(nthreads(), |shard, nshards, st| {
         let mut rng = Rng::new(mix(seed ^ 0xC19, shard as u64));
         let mut idx = 0usize;
@@ -282,6 +282,6 @@ pub fn run(args: &Args) -> (Meta, Stats) {
         "the sequence of EncodingIndicator results of feed() is compared with an expectation derived from the html-namespace meta elements the sink was asked to create: charset attribute -> its value; else http-equiv ~ content-type plus content -> an independent implementation of 'extract a character encoding from a meta element'; exactly one indicator per such element, raised while that meta is still the most recently created element and already attached; none otherwise; the final tree and the indicator sequence must not depend on the feed schedule. Inputs: every content string of up to 4 tokens over {charset, CharSet, chars, space, TAB, =, \", ', ;, x, é}, 15 meta variants in 26 placements (every insertion mode, foreign content, raw text, comments, framesets) x all 2-chunk splits x scripting x fragment contexts, and random documents with sprinkled metas. Non-trivial = the input contains a meta; distinct by hash of input+schedule+options.",
         &["an empty extraction result is accepted either way (the spec's label lookup fails on it; html5ever documents that it does not validate labels)", "expectations key on html-namespace meta elements actually created, so they do not depend on predicting insertion modes"],
     );
-    m.require = vec![("enumerated_content_strings".into(), 25000), ("placement_cases".into(), 300), ("indicators_matched".into(), 5000), ("metas_without_declaration".into(), 2000), ("random_cases".into(), 1000)];
+    m.require = vec![("enumerated_content_strings".into(), 35000), ("placement_cases".into(), 300), ("indicators_matched".into(), 5000), ("metas_without_declaration".into(), 2000), ("random_cases".into(), 1000)];
     (m, st)
 }
